@@ -21,13 +21,20 @@ CFG_RR = [100, 3, 0, 0, 50, 120, 1]
 CFG_RR0 = [0, 3, 0, 0, 50, 0, 0]
 CFG_HDR = [0, 200, 0, 0, 50, 0, 0]
 CFG_HDR_KA = [100, 200, 0, 0, 50, 120, 1]
+CFG_BP = [0, 1, 0, 0, 0, 0, 0, 0, 0, 0, 1]
+CFG_BP_KA = [100, 1, 0, 0, 0, 0, 0, 0, 0, 0, 1]
+CFG_BP_RR = [0, 4, 0, 0, 50, 0, 0, 0, 0, 0, 1]
 
 
 class Sim:
     """tracks which request ids are outstanding so that only meaningful operations are generated"""
 
-    def __init__(self, flen):
-        self.next_id = 1
+    def __init__(self, flen, sticky=False):
+        # with write back-pressure the dispatcher may sit in Backpressure and not resume the read task
+        # when the service becomes ready again: "bytes arrived during a pause" then stays true
+        self.sticky = sticky
+        # header codec: small numbers also occur as length / payload bytes, request ids start at 100 there
+        self.next_id = 100 if flen == 200 else 1
         self.pending = []
         self.flen = flen
         # the io read task is paused while the service is not ready; what ntex-io's in-memory test
@@ -98,12 +105,12 @@ def expand(sym, sim, rng=None):
     if k == "raw":
         op = list(sym[1:])
         if op[0] == 8:
-            if op[1] == 3 and sim.mode == 3:
-                sim.dirty = sim.dirty or len(op) > 2
+            if (op[1] == 3 and sim.mode == 3) or sim.sticky:
+                sim.dirty = sim.dirty or (len(op) > 2 and op[1] == 3)
             else:
                 sim.dirty = len(op) > 2 and op[1] == 3
             sim.mode = op[1]
-        if op[0] in (3, 4) and sim.mode == 3 and sim.dirty:
+        if op[0] in (3, 4) and (sim.mode == 3 or sim.sticky) and sim.dirty:
             return None
         if op[0] == 4 and sim.mode == 3:
             sim.no_writes = True
@@ -119,12 +126,15 @@ ALPHA_RICH = [("req",), ("req2",), ("imm", 200), ("imm", 202), ("imm", 203), ("i
               ("done2", 2, 3), ("raw", 3), ("raw", 4), ("raw", 5, 0), ("raw", 5, 1), ("raw", 5, 2), ("raw", 6),
               ("raw", 7), ("raw", 8, 1), ("raw", 8, 2), ("raw", 8, 3), ("raw", 8, 0), ("raw", 9), ("raw", 10, 1),
               ("raw", 11)]
+# write back-pressure: handlers answering with 1100 bytes while the peer accepts nothing
+ALPHA_BP = [("req",), ("done", 0, 5), ("done", 1, 5), ("done", 0, 0), ("done", 1, 2), ("raw", 12, 0), ("raw", 12, 1),
+            ("raw", 3), ("raw", 6), ("raw", 5, 0), ("raw", 8, 3), ("raw", 8, 0), ("raw", 9), ("bad",), ("part",), ("rest",)]
 ALPHA_TIMER = [("req",), ("part",), ("part", 1), ("rest",), ("rest", 1), ("hdr",), ("pay", 1), ("pay", 2), ("raw", 9),
                ("raw", 8, 3), ("raw", 8, 3, 1), ("raw", 8, 0), ("done", 0, 0), ("raw", 3), ("raw", 5, 0)]
 
 
 def build(cfg, syms):
-    sim = Sim(max(cfg[1] if len(cfg) > 1 else 1, 1))
+    sim = Sim(max(cfg[1] if len(cfg) > 1 else 1, 1), len(cfg) > 10 and cfg[10] == 1)
     ops = []
     for s in syms:
         o = expand(s, sim)
@@ -154,7 +164,7 @@ def rand_cases(rng, cfgs, alpha, n, lo=7, hi=30):
         for _ in range(k):
             syms.append(rng.choice(alpha))
         # drop the symbols that make no sense at their position instead of rejecting the case
-        sim = Sim(max(cfg[1] if len(cfg) > 1 else 1, 1))
+        sim = Sim(max(cfg[1] if len(cfg) > 1 else 1, 1), len(cfg) > 10 and cfg[10] == 1)
         ops = []
         for s in syms:
             o = expand(s, sim)
@@ -176,6 +186,8 @@ FIXED = [
     "100,2;1,1,0,2;8,3,1;9;5,0",
     "0,200,0,0,50,0,0;1,1;9;1,3;9;5,0",
     "100,1;1,1;9;5,0",
+    "0,1,0,0,0,0,0,0,0,0,1;1,1;12,0;2,1,5;1,255;12,1;5,0",
+    "0,4,0,0,50,0,0,0,0,0,1;1,5,0,0,0;1,6;12,0;13,5,5;9;12,1",
 ]
 
 
@@ -195,6 +207,12 @@ def iostate_cases(rng, tier="thorough"):
          "not-ready, with keep-alive and frame-read-rate configured" % (3 if tier == "quick" else 4),
          [c for cfg in (CFG_KA2, CFG_RR, CFG_RR0, CFG_HDR, CFG_HDR_KA)
           for c in exhaustive(cfg, ALPHA_TIMER, 3 if tier == "quick" else 4)]),
+        ("exhaustive-backpressure", "all sequences up to length %d over requests, 1100-byte responses, a peer that "
+         "stops/resumes accepting bytes, close, not-ready, timer expiry (write buffer high watermark 1024)"
+         % (3 if tier == "quick" else 4),
+         [c for cfg in (CFG_BP, CFG_BP_KA) for c in exhaustive(cfg, ALPHA_BP, 3 if tier == "quick" else 4)]),
+        ("random-backpressure", "random sequences of 7..30 back-pressure operations",
+         rand_cases(rng, [CFG_BP, CFG_BP_KA, CFG_BP_RR], ALPHA_BP, nrand // 2)),
         ("random-life", "random sequences of 7..30 operations over all op codes",
          rand_cases(rng, [CFG_PLAIN, CFG_KA, CFG_CTL_NOW, CFG_SD], ALPHA_RICH, nrand)),
         ("random-timer", "random sequences of 7..30 timer-relevant operations",
@@ -207,6 +225,65 @@ def iostate_cases(rng, tier="thorough"):
 def rt(cfg, horizon, timed_ops):
     c = list(cfg) + [0] * (7 - len(cfg)) + [horizon]
     return line([c] + [[t] + op for t, op in timed_ops])
+
+
+def mq(kind, ka, horizon, timed_ops, ct=0, rr=(0, 0, 0)):
+    """real MQTT endpoint scenario: kind 3/5 server, 13/15 client (see harness/src/engines/timerrt.rs)"""
+    c = [ka, 0, 0, 0, rr[0], rr[1], rr[2], horizon, kind, ct]
+    return line([c] + [[t, op] for t, op in timed_ops])
+
+
+def mqtt_cases(rng, n_random=16):
+    out = []
+    for kind in (3, 5):
+        # keep-alive 2 -> 3 s (factor 1.5): idle connection ends at second 3 (v5: DISCONNECT 0x8D)
+        out.append(mq(kind, 2, 5, [(0, 20)]))
+        # keep-alive 1 -> 1 s
+        out.append(mq(kind, 1, 4, [(1, 20)]))
+        # PINGREQ every second: alive
+        out.append(mq(kind, 2, 5, [(0, 20), (1, 21), (2, 21), (3, 21), (4, 21)]))
+        # PINGREQ split over two seconds
+        out.append(mq(kind, 2, 5, [(0, 20), (1, 22), (2, 23)]))
+        # keep-alive 4 -> 6 s: nothing within the horizon
+        out.append(mq(kind, 4, 5, [(0, 20)]))
+        # connect timeout 2 s: no CONNECT / partial CONNECT / CONNECT in time
+        out.append(mq(kind, 0, 4, [], ct=2))
+        out.append(mq(kind, 0, 4, [(0, 24)], ct=2))
+        out.append(mq(kind, 3, 5, [(0, 24), (1, 25)], ct=2))
+        out.append(mq(kind, 2, 5, [(1, 20)], ct=3))
+        # read-rate rule: a lone first byte of a packet
+        out.append(mq(kind, 2, 5, [(0, 20), (1, 22)], rr=(1, 0, 1)))
+        out.append(mq(kind, 4, 5, [(0, 20), (1, 22)], rr=(2, 0, 0)))
+        # rate 0 ("any progress"): 0x82, extension, then 0x05 completes the header, which the codec consumes:
+        # the buffered count drops 1 -> 0 and the next expiry computes 0 - 1 (io.rs:550)
+        out.append(mq(kind, 4, 5, [(0, 20), (1, 26), (3, 27)], rr=(1, 0, 0)))
+        out.append(mq(kind, 4, 5, [(0, 20), (1, 26)], rr=(1, 0, 0)))
+    for kind in (13, 15):
+        out.append(mq(kind, 2, 5, [(0, 30)]))
+        out.append(mq(kind, 1, 5, [(0, 30)]))
+        out.append(mq(kind, 2, 5, [(0, 30), (3, 3)]))
+        out.append(mq(kind, 0, 4, [(0, 30)]))
+        out.append(mq(kind, 3, 5, [(1, 30)]))
+    for _ in range(n_random):
+        kind = rng.choice([3, 5])
+        ka = rng.choice([1, 2, 3, 4])
+        ct = rng.choice([0, 0, 2, 3])
+        t0 = rng.choice([0, 1]) if ct != 2 else 0
+        ops = [(t0, 20)]
+        half = False          # the byte stream stays a well-formed sequence of PINGREQ packets
+        for t in range(t0 + 1, 5):
+            r = rng.random()
+            if half:
+                if r < 0.5:
+                    ops.append((t, 23))
+                    half = False
+            elif r < 0.3:
+                ops.append((t, 21))
+            elif r < 0.55:
+                ops.append((t, 22))
+                half = True
+        out.append(mq(kind, ka, 5, ops, ct=ct, rr=rng.choice([(0, 0, 0), (0, 0, 0), (1, 0, 0), (2, 0, 1)])))
+    return out
 
 
 def timerrt_cases(rng, n_random=24):
@@ -263,4 +340,4 @@ def timerrt_cases(rng, n_random=24):
             elif r < 0.7:
                 ops.append((t, [8, 0]))
         out.append(rt([ka, flen, 0, 0] + rr, horizon, ops))
-    return out
+    return out + mqtt_cases(rng, max(4, n_random // 2))
